@@ -1,7 +1,7 @@
 """B4 - bounded stand-in for the contract of Pregex.__repr__ / get_pattern (native):
 the exported text is printable and compiles to the same regex as the internal pattern (parse trees equal under
 CPython's parser).  Domain: literals and classes over 'nasty' characters (control characters, quotes, backslash runs,
-non-BMP, combining marks) and one DSL step on them."""
+non-BMP, combining marks) and one DSL step on them; user-written regexes (escape=False) with an escaped nasty character."""
 import itertools, random, re
 from . import native as N
 
@@ -37,6 +37,18 @@ def run(tier="quick", seed=0):
         exprs.append("Pregex(%r)" % s)
         exprs.append("Optional(Pregex(%r)) + AnyFrom(%r, %r)" % (s, rnd.choice(NASTY), rnd.choice(NASTY)))
         exprs.append("Capture(Either(%r, %r), 'n') + Newline() + Backslash()" % (s, rnd.choice(NASTY)))
+    # user-written regexes (escape=False): an escaped nasty character, alone, in a class, next to quotes / other nasty characters
+    raw = []
+    for c in NASTY:
+        raw += ["\\" + c, "[\\" + c + "x]", "\\" + c + "'\"", "a\\\\" + c, "\\" + c + "{2}"]
+    for a, b in (pairs if tier == "thorough" else rnd.sample(pairs, 150)):
+        raw += ["\\" + a + b, a + "\\" + b, "[" + "\\" + a + "\\" + b + "]"]
+    for s in raw:
+        try:
+            re.compile(s, re.M | re.S)
+        except (re.error, RecursionError, OverflowError):
+            continue
+        exprs.append("Pregex(%r, escape=False)" % s)
     fails = []
     n = 0
     for e in exprs:
